@@ -115,7 +115,7 @@ def step_relation(ma, mb, layout, rel, stats, eof, key, timeout_ms=20000, states
     return fails
 
 
-def erun(machine, layout, bs, with_end, start_data=None, nvar=None):
+def erun(machine, layout, bs, with_end, start_data=None, nvar=None, start_actions=None):
     """function for symx.explore: eager run from start() over symbolic bytes bs with symbolic length n (length decided by branching
     on 'stop here'); returns (trace, outcome)"""
     nvar = z3.BitVec('n_len', 8) if nvar is None else nvar
@@ -125,7 +125,22 @@ def erun(machine, layout, bs, with_end, start_data=None, nvar=None):
         data = start_data.copy() if start_data is not None else layout.initial(symbolic_uninit=True)
         events = []
         ubs = []
-        code, st, data = absm.eflush(machine, ctx, snap.start, data, events, None, ubs)
+        # start(): the actions that precede the first match run before any input
+        ub0 = C.UB()
+        st0 = snap.start
+        for a in (start_actions or ()):
+            r = machine.act(ctx, a, data, None, ub0, events)
+            if r is None:
+                continue
+            if r[0] == 'ret':
+                if r[1].startswith('YIELD_'):
+                    events.append(('yield', r[1]))
+                    continue
+                return (list(events), (r[1], 0), data, [ub0.any()], 0)
+            st0 = r[1]
+            break
+        ubs.append(ub0.any())
+        code, st, data = absm.eflush(machine, ctx, st0, data, events, None, ubs)
         trace = list(events)
         if code is not None:
             return (trace, (code, 0), data, ubs, 0)
@@ -156,7 +171,7 @@ def erun(machine, layout, bs, with_end, start_data=None, nvar=None):
     return fn
 
 
-def bmc(ma, mb, layout, K, with_end, stats, key, max_paths=6000, timeout_ms=30000):
+def bmc(ma, mb, layout, K, with_end, stats, key, max_paths=6000, timeout_ms=30000, start_a=None, start_b=None):
     """bounded comparison from start(): all inputs of length <= K (symbolic bytes and length). Returns list of witnesses (dicts)"""
     d = stats.d
     solver = z3.Solver(); solver.set('timeout', timeout_ms)
@@ -165,8 +180,8 @@ def bmc(ma, mb, layout, K, with_end, stats, key, max_paths=6000, timeout_ms=3000
     base = [z3.ULE(nvar, K)]
     sx = {'queries': 0, 'solver_time': 0.0}
     try:
-        pa = symx.explore(erun(ma, layout, bs, with_end), solver, assumptions=base, stats=sx, max_paths=max_paths)
-        pb = symx.explore(erun(mb, layout, bs, with_end), solver, assumptions=base, stats=sx, max_paths=max_paths)
+        pa = symx.explore(erun(ma, layout, bs, with_end, start_actions=start_a), solver, assumptions=base, stats=sx, max_paths=max_paths)
+        pb = symx.explore(erun(mb, layout, bs, with_end, start_actions=start_b), solver, assumptions=base, stats=sx, max_paths=max_paths)
     except symx.PathBudget:
         d['cov'].setdefault('bmc_path_budget_exceeded', []).append(key)
         return None
@@ -214,12 +229,12 @@ def bmc(ma, mb, layout, K, with_end, stats, key, max_paths=6000, timeout_ms=3000
     return out
 
 
-def concrete_trace(machine, layout, inp, with_end):
+def concrete_trace(machine, layout, inp, with_end, start_actions=None):
     """concrete eager run; returns printable trace"""
     from . import replay
     bs = [z3.BitVecVal(x, 8) for x in inp]
     ctx = symx.Ctx()
-    tr, outc, data, ubs, i = erun(machine, layout, bs, with_end, nvar=z3.BitVecVal(len(inp), 8))(ctx)
+    tr, outc, data, ubs, i = erun(machine, layout, bs, with_end, nvar=z3.BitVecVal(len(inp), 8), start_actions=start_actions)(ctx)
     out = []
     for e in tr:
         if e[0] == 'hook':
